@@ -752,12 +752,18 @@ def op_checksig_schnorr(stack, tx_obj, input_index):
     point = S256Point.parse_xonly(pubkey)
     if len(signature) == 65:
         hash_type = signature[-1]
+        # BIP341: an explicit hash type byte must not be SIGHASH_DEFAULT
+        if hash_type == 0:
+            return False
         signature = signature[:-1]
     elif len(signature) == 0:
         stack.append(encode_num(0))
         return True
-    else:
+    elif len(signature) == 64:
         hash_type = 0
+    else:
+        # BIP341: a signature is 64 or 65 bytes
+        return False
     sig = SchnorrSignature.parse(signature)
     msg = tx_obj.sig_hash(input_index, hash_type)
     if point.verify_schnorr(msg, sig):
@@ -781,12 +787,18 @@ def op_checksigadd_schnorr(stack, tx_obj, input_index):
     point = S256Point.parse_xonly(pubkey)
     if len(signature) == 65:
         hash_type = signature[-1]
+        # BIP341: an explicit hash type byte must not be SIGHASH_DEFAULT
+        if hash_type == 0:
+            return False
         signature = signature[:-1]
     elif len(signature) == 0:
         stack.append(encode_num(n))
         return True
-    else:
+    elif len(signature) == 64:
         hash_type = 0
+    else:
+        # BIP341: a signature is 64 or 65 bytes
+        return False
     sig = SchnorrSignature.parse(signature)
     msg = tx_obj.sig_hash(input_index, hash_type)
     if point.verify_schnorr(msg, sig):
